@@ -486,6 +486,14 @@ class CodeGenerator(NodeVisitor):
         error could occur.  The extra keyword arguments should be given
         as python dict.
         """
+        for kwarg in node.kwargs:
+            if extra_kwargs is not None and kwarg.key in extra_kwargs:
+                self.fail(
+                    f"keyword argument {kwarg.key!r} is set by the template"
+                    " engine for this call and can not be passed explicitly",
+                    node.lineno,
+                )
+
         # if any of the given keyword arguments is a python keyword
         # we have to make sure that no invalid call is created.
         kwarg_workaround = any(
